@@ -12,8 +12,8 @@ tf=$(mktemp /tmp/ps-XXXXXX); printf '%s' "$conf" > "$tf.conf"; printf '%s' "$res
 python3 - "$pid" "$n" "$crc" "$out" "$tf" "$@" <<'PY'
 import json,sys,re
 pid,n,crc,out,tf=sys.argv[1:6]; checks=sys.argv[6:]
-conf=open(tf+'.conf').read()
-res=open(tf+'.res').read()
+conf=open(tf+'.conf', errors='replace').read()
+res=open(tf+'.res', errors='replace').read()
 caught={}
 for m in re.finditer(r'== (C\d+) exit=(\d+): (\d+) VIOLATION', res):
     caught[m.group(1)]={'exit':int(m.group(2)),'violation_lines':int(m.group(3))}
